@@ -116,6 +116,8 @@ fn corpus() -> Vec<&'static str> {
         "prog 2 2 0 - infd v0 I 0 3 infd v1 I 0 3 ltfd v0 v1 plusfd v0 v1 i3",
         "prog 3 2 0 - infd v0 I -2 2 infd v1 I -2 2 infd v2 I -2 2 timesfd v0 v1 v2 conde 2 1 eq v2 i-2 1 diseqfd v0 v1",
         "prog 2 1 0 - fresh conj 2 neq v0 v1 eq v1 i2 conde 2 1 eq v0 i1 1 eq v0 i2",
+        // a constraint posted on names that are aliased afterwards, the aliases narrowed to one value by propagation (C04-k)
+        "prog 4 2 0 - infd cons v0 cons v1 cons v2 cons v3 nil V 3 1 2 3 ltefd v0 v1 eq v0 v2 eq v1 v3 ltefd i3 v2 conde 2 1 eq v3 i3 1 ltefd v3 i1",
     ]
 }
 
